@@ -155,6 +155,20 @@ func TestC05(t *testing.T) {
 				c.Fatalf("frame: %v", err)
 			}
 			f.SetSequenceNum(uint32(i + 1)) // make equal-sized frames distinct
+			if i < 1000 && c.Chance("clone", 1, 6) {
+				// What the link gets is a clone that was changed after cloning (as a
+				// router does with a frame it sends on several links); what must
+				// arrive is the frame with that change.
+				ttl := uint8(c.Int("clone.ttl", 1, 250))
+				cl := f.Clone()
+				f.SetTTL(ttl)
+				d, _ := f.FrameDataWithMargins(0, 0)
+				sent[string(d)] = i
+				f.ReturnToPool()
+				cl.SetTTL(ttl)
+				c.Class("batch-with-a-clone-changed-after-cloning")
+				return cl
+			}
 			d, _ := f.FrameDataWithMargins(0, 0)
 			sent[string(d)] = i
 			return f
